@@ -58,6 +58,8 @@ type Obl struct {
 	Wall   float64
 	Model  string
 	Script string
+	// ResTerms: SMT terms of the results at the return a postcondition is checked at (replay)
+	ResTerms []string
 }
 
 type bstate struct {
